@@ -14,7 +14,7 @@ RULE = (
 ASSUMPTIONS = ["fastcache is not installed in this image, so the cachedsearch wrappers are pass-through (stated, not assumed away: they are still compared call by call)",
                "names/reprs in CountError cases are digit-free so the numbers in the message are unambiguous"]
 GATES = ["mon.C14.findall", "mon.C14.find", "mon.C14.by_attr", "mon.C14.cached", "C14.bound_equal_count", "C14.counterror_min", "C14.counterror_max",
-         "C14.attr_missing_skipped", "C14.find_none", "C14.find_one", "C14.find_many", "C14.none_value_with_missing_attr", "C14.unhashable_value", "C14.after_mutation"]
+         "C14.attr_missing_skipped", "C14.find_none", "C14.find_one", "C14.find_many", "C14.none_value_with_missing_attr", "C14.unhashable_value", "C14.after_mutation", "C14.variant.getattr", "C14.variant.property"]
 
 
 def plan(tier, seed, jobs):
@@ -60,8 +60,9 @@ def check_tree(ctx, nodes, tags, ch, s, case, bounds_all=True, rng=None):
                               observed=repr(res[1])[:200] if res[0] == "exc" else m(res[1]))
                 return False
             nums = [int(x) for x in INTS.findall(str(res[1]))]
-            okmin = mincount is not None and cnt < mincount and nums[:2] == [mincount, cnt]
-            okmax = maxcount is not None and cnt > maxcount and nums[:2] == [maxcount, cnt]
+            # "the message naming both numbers": the violated bound and the count, in whatever wording
+            okmin = mincount is not None and cnt < mincount and mincount in nums and cnt in nums
+            okmax = maxcount is not None and cnt > maxcount and maxcount in nums and cnt in nums
             if okmin:
                 ctx.count("C14.counterror_min")
             if okmax:
@@ -139,7 +140,7 @@ def check_tree(ctx, nodes, tags, ch, s, case, bounds_all=True, rng=None):
                     good = r[0] == "ok" and r[1] is nodes[exp[0]]
                 else:
                     ctx.count("C14.find_many")
-                    good = r[0] == "exc" and type(r[1]) is CountError and [int(x) for x in INTS.findall(str(r[1]))][:2] == [1, cnt]
+                    good = r[0] == "exc" and type(r[1]) is CountError and cnt in [int(x) for x in INTS.findall(str(r[1]))]
                 if not good:
                     ctx.violation("C14/find/%s" % ("none" if cnt == 0 else "one" if cnt == 1 else "many"), "find", dict(case, **cfg),
                                   expected=("None" if cnt == 0 else exp[0] if cnt == 1 else "CountError(1, %d)" % cnt),
@@ -205,15 +206,50 @@ def norm_tags(tags):
     return [ABSENT if t == ABSENT else t for t in tags]
 
 
-def build(par, tags):
+_VARIANTS = {}
+
+
+def variant_class(variant):
+    """AnyNode subclasses that serve the searched attribute in unusual but legal ways."""
     from anytree import AnyNode
 
+    if variant not in _VARIANTS:
+        if variant == "getattr":
+            class GetattrNode(AnyNode):
+                # 'tag' lives neither in the instance dict nor on the class
+                def __getattr__(self, name):
+                    store = self.__dict__.get("_store", {})
+                    if name == "tag" and "tag" in store:
+                        return store["tag"]
+                    raise AttributeError(name)
+
+            _VARIANTS[variant] = GetattrNode
+        elif variant == "property":
+            class PropertyNode(AnyNode):
+                @property
+                def tag(self):
+                    store = self.__dict__.get("_store", {})
+                    if "tag" in store:
+                        return store["tag"]
+                    raise AttributeError("tag")
+
+            _VARIANTS[variant] = PropertyNode
+        else:
+            _VARIANTS[variant] = AnyNode
+    return _VARIANTS[variant]
+
+
+def build(par, tags, variant="plain"):
+    cls = variant_class(variant)
     nodes = []
     for i, p in enumerate(par):
         kw = {"name": "nm"}
         if tags[i] is not ABSENT:
-            kw["tag"] = tags[i]
-        nodes.append(AnyNode(**kw))
+            if variant == "plain":
+                kw["tag"] = tags[i]
+            else:
+                kw["_store"] = {"tag": tags[i]}
+        nodes.append(cls(**kw))
     for i, p in enumerate(par):
         if p is not None:
             nodes[i].parent = nodes[p]
@@ -248,8 +284,10 @@ def run(ctx):
         n = rng.randint(7, 25)
         par, _ = gen.random_tree(rng, n)
         tags = [rng.choice([ABSENT, "u", "v", "w", 1, True, 1.0, None, ["l"]]) for _ in range(n)]
-        nodes = build(par, tags)
-        check_tree(ctx, nodes, tags, gen.children_of(par), rng.choice([0, rng.randrange(n)]), {"par": list(par), "tags": tags}, bounds_all=False)
+        variant = ("plain", "getattr", "property")[r % 3]
+        ctx.count("C14.variant." + variant)
+        nodes = build(par, tags, variant)
+        check_tree(ctx, nodes, tags, gen.children_of(par), rng.choice([0, rng.randrange(n)]), {"par": list(par), "tags": tags, "variant": variant}, bounds_all=False)
     histories(ctx)
 
 
@@ -267,7 +305,7 @@ def histories(ctx):
         tags = [rng.choice([ABSENT, "u", "v", "u", None]) for _ in range(k)]
         first = True
         log = []
-        for nodes, par, ch, case in TR.evolving_universe(ctx, rng, "AnyNode", k, rng.randint(4, 14)):
+        for nodes, par, ch, case in TR.evolving_universe(ctx, rng, "AnyNode", k, rng.randint(4, 14), fault_rate=(0.3 if h % 2 else 0.0)):
             if first:
                 for i, n in enumerate(nodes):
                     n.name = "nm"
@@ -313,5 +351,5 @@ def replay(ctx, wit):
                         n.tag = cur[i]
             check_tree(ctx, nodes, cur, ch, c.get("start", 0), dict(c), bounds_all=False)
         return
-    nodes = build(c["par"], tags)
-    check_tree(ctx, nodes, tags, gen.children_of(c["par"]), c.get("start", 0), {"par": c["par"], "tags": c["tags"]}, bounds_all=True)
+    nodes = build(c["par"], tags, c.get("variant", "plain"))
+    check_tree(ctx, nodes, tags, gen.children_of(c["par"]), c.get("start", 0), {"par": c["par"], "tags": c["tags"], "variant": c.get("variant", "plain")}, bounds_all=True)
